@@ -42,6 +42,12 @@ class PathEnd(Exception):
     """Stop exploring this path (infeasible assumption or end of a loop-body proof)."""
 
 
+class LoopCut(Exception):
+    """An arbitrary loop iteration completed normally: the coroutine is not followed further.
+    The harness turns it into a normal outcome so that the proof script can state what the
+    iteration did."""
+
+
 class Env:
     __slots__ = ("vars", "parent")
 
@@ -283,6 +289,18 @@ class Path:
             if r == z3.sat:
                 worst = "sat"
                 model = s.model()
+                # the slice leaves symbols outside it unconstrained (e.g. the length of a payload
+                # whose bytes are in the slice): complete the counterexample against the whole
+                # path condition so that it can be replayed natively
+                if len(s.assertions()) < len(self.pc) + 1:
+                    s_full = z3.Solver()
+                    s_full.set("timeout", 5000)
+                    for p in self.pc:
+                        s_full.add(p)
+                    s_full.add(nt)
+                    if s_full.check() == z3.sat:
+                        s = s_full
+                        model = s.model()
                 # prefer a small counterexample: try to pin loop indices / lengths down
                 for iname, iv in self.inputs.items():
                     if isinstance(iv, SInt) and (iname.endswith(":k") or "len" in iname or "count" in iname):
